@@ -189,6 +189,10 @@ def monitorC13 (script : List Cmd) (iters : List Iter) : Option String :=
   -- when does daemon d process a shutdown?
   let shutdownAt (d : Nat) : Option Nat :=
     calls.findSome? fun ((c, k) : Cmd × Nat) => match c with | .shutdown d' _ => if d' == d then some k else none | _ => none
+  -- channels whose receiver the client dropped (`dropchan d ch`): nothing is observed on them
+  -- afterwards, so the clauses about what must ARRIVE on a channel do not judge them
+  let dropped (d ch : Nat) : Bool := script.any fun c =>
+    match c with | .other ["dropchan", d', ch'] => d'.toNat? == some d && ch'.toNat? == some ch | _ => false
   let browseClause := calls.findSome? fun ((c, k0) : Cmd × Nat) =>
     match c with
     | .browse d ch ty cacheOnly =>
@@ -222,7 +226,7 @@ def monitorC13 (script : List Cmd) (iters : List Iter) : Option String :=
         | some ke =>
           -- the search was started (its start was processed before the daemon ended)
           if kinds.isEmpty then none
-          else if !cacheOnly && !(evs.any fun e => e.1 == ke && e.2.headD "" == "stopped") then
+          else if !cacheOnly && !dropped d ch && !(evs.any fun e => e.1 == ke && e.2.headD "" == "stopped") then
             some s!"no-SearchStopped-at-stop ch={ch}"
           else
             -- no further query for that type until it is browsed again
@@ -276,9 +280,9 @@ def monitorC13 (script : List Cmd) (iters : List Iter) : Option String :=
         | some ke =>
           if kinds.isEmpty then none
           else if laterStart ≤ ke then none       -- replaced by a new search before it ended
-          else if !(evs.any fun e => e.1 == ke && e.2.headD "" == "hstopped") then
+          else if !dropped d ch && !(evs.any fun e => e.1 == ke && e.2.headD "" == "hstopped") then
             some s!"no-SearchStopped-at-stop-or-timeout ch={ch} iter={ke}"
-          else if timeoutAt == some ke && stopAt.all (· ≥ ke) &&
+          else if !dropped d ch && timeoutAt == some ke && stopAt.all (· ≥ ke) &&
               !(evs.any fun e => e.1 == ke && e.2.headD "" == "htimeout") then
             some s!"no-SearchTimeout-at-deadline ch={ch}"
           else
@@ -293,7 +297,28 @@ def monitorC13 (script : List Cmd) (iters : List Iter) : Option String :=
               j > ke && j < laterStart && (itArr[j]?.map fun it => it.d == d && askedIn it host [1, 28]).getD false
             if bad && !browses then some s!"query-after-stop host={hexOfBytes host}" else none
     | _ => none
-  browseClause <|> cacheOnlyClause <|> hostClause
+  -- "forgets the records it cached for the stopped browse": a browse of the type that follows a
+  -- stop, with no datagram read by the daemon from the stop's iteration on, starts from an empty
+  -- cache - it replays no instance (whatever happened to the stopped search's channel)
+  let forgetClause := calls.findSome? fun ((c, ks) : Cmd × Nat) =>
+    match c with
+    | .stopBrowse d ty =>
+      let next := (calls.filterMap fun ((c', k) : Cmd × Nat) =>
+        match c' with
+        | .browse d' ch' ty' _ => if d' == d && ty' == ty && k > ks then some (k, ch') else none
+        | _ => none).foldl (fun (acc : Option (Nat × Nat)) x => match acc with
+          | some a => if x.1 < a.1 then some x else some a
+          | none => some x) none
+      match next with
+      | none => none
+      | some (kb, ch2) =>
+        let silent := (List.range itArr.size).all fun j =>
+          j < ks || j > kb || (itArr[j]?.map fun it => it.d != d || it.rx.isEmpty).getD true
+        let replayed := (chanEvents iters d ch2).any fun e =>
+          e.1 == kb && (e.2.headD "" == "found" || e.2.headD "" == "resolved")
+        if silent && replayed then some s!"records-of-a-stopped-browse-still-cached ty={hexOfBytes ty} ch={ch2}" else none
+    | _ => none
+  browseClause <|> cacheOnlyClause <|> hostClause <|> forgetClause
 
 /-! ### C12 monitor -/
 
